@@ -469,3 +469,251 @@ def single_assign(func, name):
 
 
 __all__ = [n for n in dir() if not n.startswith("__")]
+
+
+# ----------------------------------------------------------------------
+# normalisation of function bodies (copies; the originals stay untouched)
+
+import copy as _copy
+
+from .core import link as _link
+
+
+def _finish(new, func):
+    ast.fix_missing_locations(new)
+    _link(new)
+    new.parent = getattr(func, "parent", None)
+    return new
+
+
+def _blocks(st):
+    for fld in ("body", "orelse", "finalbody"):
+        v = getattr(st, fld, None)
+        if isinstance(v, list) and not isinstance(
+                st, (ast.FunctionDef, ast.ClassDef, ast.Lambda)):
+            yield fld, v
+    if isinstance(st, ast.Try):
+        for h in st.handlers:
+            yield "body", h.body
+
+
+def _unconditional_walrus(expr):
+    """NamedExpr nodes of `expr` that are evaluated whenever `expr` is
+    (not in the right operand of and/or, a conditional expression branch,
+    a lambda or a comprehension)"""
+    out = []
+
+    def rec(e):
+        if isinstance(e, ast.NamedExpr):
+            rec(e.value)
+            out.append(e)
+            return
+        if isinstance(e, ast.BoolOp):
+            rec(e.values[0])
+            return
+        if isinstance(e, ast.IfExp):
+            rec(e.test)
+            return
+        if isinstance(e, (ast.Lambda, ast.ListComp, ast.SetComp,
+                          ast.DictComp, ast.GeneratorExp)):
+            return
+        for c in ast.iter_child_nodes(e):
+            rec(c)
+    rec(expr)
+    return out
+
+
+def dewalrus(func):
+    """copy of `func` in which ``if (x := E) ...:`` / ``y = f(x := E)`` are
+    rewritten to ``x = E`` followed by the statement using ``x``"""
+    new = _copy.deepcopy(func)
+
+    class Repl(ast.NodeTransformer):
+        def __init__(self, targets):
+            self.t = targets
+
+        def visit_NamedExpr(self, node):
+            self.generic_visit(node)
+            if any(node is t for t in self.t):
+                return ast.copy_location(ast.Name(id=node.target.id,
+                                                  ctx=ast.Load()), node)
+            return node
+
+    def process(stmts):
+        out = []
+        for st in stmts:
+            for fld, blk in list(_blocks(st)):
+                if isinstance(st, ast.Try) and fld == "body" \
+                        and blk is not st.body:
+                    blk[:] = process(blk)
+                else:
+                    setattr(st, fld, process(blk)) if blk is getattr(
+                        st, fld, None) else blk.__setitem__(
+                        slice(None), process(blk))
+            part = None
+            if isinstance(st, ast.If):
+                part = "test"
+            elif isinstance(st, (ast.Assign, ast.Expr, ast.Return,
+                                 ast.AugAssign)) and getattr(
+                    st, "value", None) is not None:
+                part = "value"
+            if part is not None:
+                ws = _unconditional_walrus(getattr(st, part))
+                for w in ws:
+                    out.append(ast.copy_location(ast.Assign(
+                        targets=[ast.Name(id=w.target.id, ctx=ast.Store())],
+                        value=w.value), st))
+                if ws:
+                    setattr(st, part, Repl(ws).visit(getattr(st, part)))
+            out.append(st)
+        return out
+    new.body = process(new.body)
+    return _finish(new, func)
+
+
+class _Renamer(ast.NodeTransformer):
+    def __init__(self, mapping):
+        self.m = mapping
+
+    def visit_Name(self, node):
+        if node.id in self.m:
+            return ast.copy_location(ast.Name(id=self.m[node.id],
+                                              ctx=node.ctx), node)
+        return node
+
+    def visit_FunctionDef(self, node):
+        return node
+
+    visit_Lambda = visit_FunctionDef
+
+
+def inline_module_helpers(repo, rel, func, depth=2):
+    """copy of `func` in which calls of simple module-level functions of the
+    same file (single trailing ``return``, plain parameters) that occur in
+    an expression / assignment / return statement are replaced by the
+    helper's body (parameters bound by assignments, locals renamed
+    ``<name>_h<k>``) and its return expression"""
+    new = _copy.deepcopy(func)
+    counter = [0]
+
+    def helper_of(call):
+        if not isinstance(call.func, ast.Name):
+            return None
+        h = repo.func(rel, call.func.id, missing_ok=True)
+        if h is None or h.name == func.name or not isinstance(
+                h.parent, ast.Module):
+            return None
+        a = h.args
+        if a.vararg or a.kwarg or a.posonlyargs or h.decorator_list:
+            return None
+        rets = [n for n in walk(h) if isinstance(n, ast.Return)]
+        if len(rets) != 1 or h.body[-1] is not rets[0] \
+                or rets[0].value is None:
+            return None
+        if any(isinstance(n, (ast.Yield, ast.YieldFrom, ast.Global,
+                              ast.Nonlocal, ast.Await)) for n in walk(h)):
+            return None
+        if any(isinstance(s, ast.Starred) for s in call.args) or any(
+                k.arg is None for k in call.keywords):
+            return None
+        return h
+
+    def expand(call, h):
+        counter[0] += 1
+        tag = f"_h{counter[0]}"
+        params = [x.arg for x in h.args.args + h.args.kwonlyargs]
+        bound = {}
+        for p, v in zip([x.arg for x in h.args.args], call.args):
+            bound[p] = v
+        for k in call.keywords:
+            if k.arg not in params or k.arg in bound:
+                return None
+            bound[k.arg] = k.value
+        pos = h.args.args
+        for p, d in zip(pos[len(pos) - len(h.args.defaults):],
+                        h.args.defaults):
+            bound.setdefault(p.arg, d)
+        for p, d in zip(h.args.kwonlyargs, h.args.kw_defaults):
+            if d is not None:
+                bound.setdefault(p.arg, d)
+        if set(bound) != set(params):
+            return None
+        locs = set(params)
+        for n in walk(h):
+            if isinstance(n, ast.Name) and isinstance(n.ctx, ast.Store):
+                locs.add(n.id)
+        ren = _Renamer({k: k + tag for k in locs})
+        body = [ast.Assign(targets=[ast.Name(id=p + tag, ctx=ast.Store())],
+                           value=_copy.deepcopy(bound[p])) for p in params]
+        hb = _copy.deepcopy(h.body)
+        doc = hb and isinstance(hb[0], ast.Expr) and isinstance(
+            hb[0].value, ast.Constant) and isinstance(hb[0].value.value, str)
+        for st in hb[1 if doc else 0:-1]:
+            body.append(ren.visit(st))
+        ret = ren.visit(hb[-1]).value
+        return body, ret
+
+    def process(stmts, level):
+        out = []
+        for st in stmts:
+            for fld, blk in _blocks(st):
+                blk[:] = process(blk, level)
+            if isinstance(st, (ast.Expr, ast.Assign, ast.Return)) \
+                    and st.value is not None and level < depth:
+                pre = []
+
+                class T(ast.NodeTransformer):
+                    def visit_Lambda(self, node):
+                        return node
+
+                    visit_ListComp = visit_SetComp = visit_DictComp = \
+                        visit_GeneratorExp = visit_Lambda
+
+                    def visit_Call(self, node):
+                        self.generic_visit(node)
+                        h = helper_of(node)
+                        if h is None:
+                            return node
+                        ex = expand(node, h)
+                        if ex is None:
+                            return node
+                        body, ret = ex
+                        pre.extend(process(body, level + 1))
+                        return ast.copy_location(ret, node)
+                st.value = T().visit(st.value)
+                for p in pre:
+                    ast.copy_location(p, st)
+                    for x in ast.walk(p):
+                        if not hasattr(x, "lineno"):
+                            ast.copy_location(x, st)
+                out.extend(pre)
+            out.append(st)
+        return out
+    new.body = process(new.body, 0)
+    new.inlined = counter[0]
+    return _finish(new, func)
+
+
+def run_straight(func, env, consts=None):
+    """interpret a function whose body consists of if / return / raise /
+    expression statements for one assignment of its parameters:
+    -> ("return", expr node) | ("raise", stmt) | ("end", None)"""
+    full = dict(consts or {})
+    full.update(env)
+
+    def block(stmts):
+        for st in stmts:
+            if isinstance(st, ast.If):
+                r = block(st.body if Mini(full).ev(st.test) else st.orelse)
+                if r is not None:
+                    return r
+            elif isinstance(st, ast.Return):
+                return "return", st.value
+            elif isinstance(st, ast.Raise):
+                return "raise", st
+            elif isinstance(st, (ast.Expr, ast.Pass)):
+                continue
+            else:
+                raise Unknown(txt(st)[:60])
+        return None
+    return block(func.body) or ("end", None)
